@@ -1,0 +1,58 @@
+//go:build verif
+
+package zuc
+
+// Contracts for the deductive check in /verif (comment-only; compiled only with -tags verif).
+// spec.* are the definitions of /verif/spec (written from the ZUC specification v1.6; LFSR arithmetic as in the
+// specification's reference arithmetic AddM / MulByPow2).
+
+//@ func (br *Br) bitReorganization(l)
+//@   assigns br.x
+//@   specfuel 9
+//@   ensures br.x == spec.ZucBR(l.s)
+//@ end
+
+//@ func (f *Fsm) nonlinF(br) (w)
+//@   assigns f.r
+//@   specfuel 9
+//@   ensures w == spec.ZucFW(old(f.r), br.x)
+//@   ensures f.r == spec.ZucFNext(old(f.r), br.x)
+//@ end
+
+//@ func (l *Lfsr) state(mode, u)
+//@   assigns l.s
+//@   specfuel 9
+//@   ensures implies(mode == "InitialisationMode", l.s == spec.ZucLfsrInit(old(l.s), u))
+//@   ensures implies(mode != "InitialisationMode", l.s == spec.ZucLfsrWork(old(l.s)))
+//@ end
+
+//@ func (l *Lfsr) initialization(k, iv, br, f)
+//@   requires br != nil && f != nil && len(k) >= 16 && len(iv) >= 16
+//@   assigns l.s, br.x, f.r
+//@   specfuel 999
+//@   opaque ZucBR, ZucFW, ZucFNext, ZucLfsrInit
+//@   ensures l.s == spec.ZucInitS(arr(k, 16), arr(iv, 16))
+//@   ensures f.r == spec.ZucInitR(arr(k, 16), arr(iv, 16))
+//@ end
+
+//@ func generateKeystream(wlength, l, br, f) (stream)
+//@   requires l != nil && br != nil && f != nil && wlength < 0x10000000
+//@   assigns l.s, br.x, f.r
+//@   specfuel 999
+//@   opaque ZucBR, ZucFW, ZucFNext, ZucLfsrWork, ZucRunIter
+//@   loop 0 invariant 0 <= i && i <= int(wlength) && len(stream) == int(wlength)
+//@   loop 0 invariant l.s == spec.ZucRunIter(old(l.s), old(f.r), i).S
+//@   loop 0 invariant f.r == spec.ZucRunIter(old(l.s), old(f.r), i).R
+//@   loop 0 invariant forall(t, 0, i, stream[t] == spec.ZucRunZ(old(l.s), old(f.r), t))
+//@   loop 0 decreases int(wlength) - i
+//@   ensures len(stream) == int(wlength)
+//@   ensures forall(t, 0, int(wlength), stream[t] == spec.ZucRunZ(old(l.s), old(f.r), t))
+//@ end
+
+//@ func Zuc(k, iv, wlength) (r)
+//@   requires len(k) >= 16 && len(iv) >= 16 && wlength < 0x10000000
+//@   specfuel 999
+//@   opaque ZucRunZ, ZucInit, ZucInitS, ZucInitR
+//@   ensures len(r) == int(wlength)
+//@   ensures forall(t, 0, int(wlength), r[t] == spec.ZucKeystreamWord(arr(k, 16), arr(iv, 16), t))
+//@ end
